@@ -41,6 +41,12 @@ type mutant struct {
 	Kind     string `json:"kind"` // break | equiv
 	Rule     string `json:"rule"` // rule expected to report (prefix match), optional
 	Note     string `json:"note,omitempty"`
+	All      bool   `json:"all,omitempty"`  // replace every occurrence of Old (renames)
+	Also     []struct {
+		File string `json:"file"`
+		Old  string `json:"old"`
+		New  string `json:"new"`
+	} `json:"also,omitempty"`
 	// for patch-based variants
 	patch   string
 	reverse bool
@@ -118,10 +124,33 @@ func overlayFor(repo string, m mutant) (map[string]string, bool, string) {
 			return nil, false, "file missing"
 		}
 		src := string(b)
-		if strings.Count(src, m.Old) != 1 {
-			return nil, false, fmt.Sprintf("anchor text occurs %d times", strings.Count(src, m.Old))
+		if m.All {
+			if strings.Count(src, m.Old) < 1 {
+				return nil, false, "anchor text does not occur"
+			}
+			src = strings.ReplaceAll(src, m.Old, m.New)
+		} else {
+			if strings.Count(src, m.Old) != 1 {
+				return nil, false, fmt.Sprintf("anchor text occurs %d times", strings.Count(src, m.Old))
+			}
+			src = strings.Replace(src, m.Old, m.New, 1)
 		}
-		return map[string]string{m.File: strings.Replace(src, m.Old, m.New, 1)}, true, ""
+		ov := map[string]string{m.File: src}
+		for _, a := range m.Also {
+			cur, ok := ov[a.File]
+			if !ok {
+				bb, err := os.ReadFile(filepath.Join(repo, a.File))
+				if err != nil {
+					return nil, false, "file missing: " + a.File
+				}
+				cur = string(bb)
+			}
+			if !strings.Contains(cur, a.Old) {
+				return nil, false, "secondary anchor text does not occur in " + a.File
+			}
+			ov[a.File] = strings.ReplaceAll(cur, a.Old, a.New)
+		}
+		return ov, true, ""
 	}
 	pb, err := os.ReadFile(m.patch)
 	if err != nil {
